@@ -1,13 +1,16 @@
 """C12 — equality, hashing, ordering and pickling of IP objects are coherent.
 Ops: cmp X Y ; cmp3 X Y Z ; sorted L L' ; roundtrip OBJ how
-objects: A:ver:val  N:ver:val:plen  R:ver:lo:hi (IPRange and IPGlob)  S:[N:..,..] (IPSet)  E:ver:val:dialect (EUI)"""
+objects: A:ver:val  N:ver:val:plen  R:ver:lo:hi (IPRange and IPGlob)  S:[N:..,..] (IPSet)  E:ver:val:dialect (EUI)
+round trips only: G:s:<hex glob text> (IPGlob; answer G:lo:hi:s:<hex of str()>)  O:val:<pyval> (OUI + records)
+I:val:<pyval> (IAB + record); roundtrip_default_set S:[..] how = an IPSet subclass WITHOUT __reduce__"""
 import copy
+import os
 import pickle
 
 from common import Case, W, plist, tf, errname, rand_value
 import common
 import netaddr
-from netaddr import IPNetwork, IPAddress, IPRange, IPGlob, IPSet, EUI
+from netaddr import IPNetwork, IPAddress, IPRange, IPGlob, IPSet, EUI, OUI, IAB
 
 ID = 'C12'
 RULE = ('a universe of ~200 objects per run (addresses, networks with and without host bits at prefix w, w-1, w-2, '
@@ -16,7 +19,10 @@ RULE = ('a universe of ~200 objects per run (addresses, networks with and withou
         'ordered pairs biased to same-family near pairs (all six operators in both directions + hash); cmp3: triples '
         '(transitivity); sorted: lists of 1..9 objects with duplicates and a permutation of the same list; roundtrip: '
         'every kind of object incl. IPSet (empty, mixed families, blocks at both ends) and EUI in every dialect x '
-        'copy, deepcopy, pickle protocols 0..HIGHEST. non-trivial = distinct case whose implementation output is '
+        'copy, deepcopy, pickle protocols 0..HIGHEST; IPGlob round trips carry the glob text (canonical text expected '
+        'back, recomputed from the integers); OUI / IAB objects with their registry records (expected records read '
+        'from the idx/txt data files by an independent reader); an IPSet subclass with the default __reduce__ '
+        'restored shows the CPython rule the model uses (empty set lost under protocols 0, 1). non-trivial = distinct case whose implementation output is '
         'not an error')
 
 DIALECTS = ['mac_eui48', 'mac_unix', 'mac_unix_expanded', 'mac_cisco', 'mac_bare', 'mac_pgsql',
@@ -39,6 +45,141 @@ def _glob(prefix_octets, x, y, spelled=False):
     lo = (base * 256 + x) << (8 * stars)
     hi = ((base * 256 + y + 1) << (8 * stars)) - 1
     return ('G', lo, hi, '.'.join(parts))
+
+
+# ---------------------------------------------------------------- Python values <-> protocol (Polish notation)
+
+def enc(v):
+    """Python value -> `pyval` token: i<int> s<hex> n t<k> l<k> d<k> joined by '.'; dict items sorted by key"""
+    out = []
+
+    def go(x):
+        if x is None:
+            out.append('n')
+        elif isinstance(x, bool):
+            raise ValueError(x)
+        elif isinstance(x, int):
+            out.append('i%d' % x)
+        elif isinstance(x, str):
+            out.append('s' + x.encode('utf-8', 'surrogatepass').hex())
+        elif isinstance(x, tuple):
+            out.append('t%d' % len(x))
+            for y in x:
+                go(y)
+        elif isinstance(x, list):
+            out.append('l%d' % len(x))
+            for y in x:
+                go(y)
+        elif isinstance(x, dict):
+            out.append('d%d' % len(x))
+            for k in sorted(x):
+                go(k)
+                go(x[k])
+        else:
+            raise ValueError(x)
+    go(v)
+    return '.'.join(out)
+
+
+_REG = {}
+
+
+def _registry(kind):
+    """independent reader of the IEEE data files shipped with the package: {value: [(offset, size), ...]}
+    from <kind>.idx, record text from <kind>.txt"""
+    if kind not in _REG:
+        base = os.path.join(os.path.dirname(netaddr.__file__), 'eui')
+        idx = {}
+        with open(os.path.join(base, kind + '.idx')) as fh:
+            for line in fh:
+                parts = line.strip().split(',')
+                if len(parts) == 3:
+                    idx.setdefault(int(parts[0]), []).append((int(parts[1]), int(parts[2])))
+        with open(os.path.join(base, kind + '.txt'), 'rb') as fh:
+            blob = fh.read()
+        _REG[kind] = (idx, blob)
+    return _REG[kind]
+
+
+def _record(kind, value, offset, size, blob):
+    """the registration dict of one index entry, parsed from the raw text by the documented layout"""
+    if kind == 'oui':
+        name = '%02X-%02X-%02X' % ((value >> 16) & 255, (value >> 8) & 255, value & 255)
+    else:
+        v = value << 4
+        name = '%02X-%02X-%02X-%02X-%02X-00' % ((v >> 32) & 255, (v >> 24) & 255, (v >> 16) & 255, (v >> 8) & 255, v & 255)
+    rec = {'idx': 0, kind: '', 'org': '', 'address': [], 'offset': offset, 'size': size}
+    for line in blob[offset:offset + size].decode('utf-8').split('\n'):
+        line = line.strip()
+        if not line:
+            continue
+        if '(hex)' in line:
+            rec['idx'] = value
+            rec['org'] = line.split(None, 2)[2]
+            rec[kind] = name
+        elif '(base 16)' in line:
+            continue
+        else:
+            rec['address'].append(line)
+    return rec
+
+
+def expected_records(kind, value):
+    idx, blob = _registry(kind)
+    recs = [_record(kind, value, off, size, blob) for off, size in idx[value]]
+    return recs if kind == 'oui' else recs[0]
+
+
+def canon_glob_text(lo, hi):
+    """canonical glob text of a glob-shaped range, octet by octet from the integers"""
+    parts = []
+    for sh in (24, 16, 8, 0):
+        a, b = (lo >> sh) & 255, (hi >> sh) & 255
+        parts.append(str(a) if a == b else ('*' if (a, b) == (0, 255) else '%d-%d' % (a, b)))
+    return '.'.join(parts)
+
+
+def rt_tok(o):
+    """token of an object for the round-trip ops (globs and registry objects carry more than integers)"""
+    k = o[0]
+    if k == 'G':
+        return 'G:' + common.hexs(o[3])
+    if k == 'O':
+        return 'O:%d:%s' % (o[1], o[2])
+    if k == 'I':
+        return 'I:%d:%s' % (o[1], o[2])
+    return tok(o)
+
+
+def rt_expected(o):
+    """what the round trip must give back, from the integers / data files of the case"""
+    if o[0] == 'G':
+        return 'G:%d:%d:%s' % (o[1], o[2], common.hexs(canon_glob_text(o[1], o[2])))
+    return rt_tok(o)
+
+
+def rt_canon(x):
+    if isinstance(x, IPGlob):
+        return 'G:%d:%d:%s' % (x.first, x.last, common.hexs(str(x)))
+    if isinstance(x, OUI):
+        return 'O:%d:%s' % (int(x), enc(x.records))
+    if isinstance(x, IAB):
+        return 'I:%d:%s' % (int(x), enc(x.record))
+    return canon(x)
+
+
+_PLAIN = {}
+
+
+def plain_ipset():
+    """IPSet as it would be WITHOUT its own __reduce__: a subclass that puts object.__reduce__ back, so that
+    CPython's default rule (copyreg._reduce_ex for protocols 0, 1) applies again"""
+    if 'cls' not in _PLAIN:
+        import sys
+        cls = type('PlainIPSet', (IPSet,), {'__slots__': (), '__reduce__': object.__reduce__, '__module__': __name__})
+        setattr(sys.modules[__name__], 'PlainIPSet', cls)      # picklable by reference
+        _PLAIN['cls'] = cls
+    return _PLAIN['cls']
 
 
 def tok(o):
@@ -72,6 +213,10 @@ def build(o):
         return IPSet([IPNetwork((v, p), version=ver) for ver, v, p in o[1]])
     if k == 'E':
         return common.make_eui(o[2], o[1], getattr(netaddr, DIALECTS[o[3]]))
+    if k == 'O':
+        return OUI(o[1])
+    if k == 'I':
+        return IAB(o[1])
     raise ValueError(o)
 
 
@@ -180,7 +325,27 @@ def c_sorted(l, l2):
 
 
 def c_rt(o, how):
-    return Case('roundtrip %s %s' % (tok(o), how), 'roundtrip/%s/%s' % (o[0], how), ('rt', o, how))
+    return Case('roundtrip %s %s' % (rt_tok(o), how), 'roundtrip/%s/%s' % (o[0], how), ('rt', o, how))
+
+
+def c_rt_default(o, how):
+    return Case('roundtrip_default_set %s %s' % (tok(o), how), 'roundtrip-default-reduce/%s/%s' % ('empty' if not o[1] else 'S', how),
+                ('rtd', o, how))
+
+
+def _registry_objs(rng, n):
+    """OUI / IAB objects of the registry shipped with the package, with the records the data files give"""
+    out = []
+    for kind, tag in (('oui', 'O'), ('iab', 'I')):
+        idx, _ = _registry(kind)
+        keys = sorted(idx)
+        if not keys:
+            continue
+        multi = [k for k in keys if len(idx[k]) > 1]
+        picks = [keys[0], keys[-1]] + rng.sample(keys, min(len(keys), n)) + (rng.sample(multi, min(len(multi), 2)) if multi else [])
+        for k in picks:
+            out.append((tag, k, enc(expected_records(kind, k))))
+    return out
 
 
 def _set_obj(rng):
@@ -203,6 +368,7 @@ def corpus():
     # F15 (fixed): unpickling an empty IPSet with protocol 0 or 1 gave an object without _cidrs
     for how in HOWS:
         out.append(c_rt(('S', ()), how))
+        out.append(c_rt_default(('S', ()), how))
     a, n32, n24, n24h = ('A', 4, 0x01020304), ('N', 4, 0x01020304, 32), ('N', 4, 0x01020300, 24), ('N', 4, 0x01020305, 24)
     r = ('R', 4, 0x01020300, 0x010203ff)
     g = _glob([1, 2, 3], 0, 255)
@@ -272,6 +438,13 @@ def generate(rng, tier):
         s = _set_obj(rng)
         for how in HOWS:
             cases.append(c_rt(s, how))
+    for _ in range(3 * mult):
+        sd = _set_obj(rng)
+        for how in HOWS:
+            cases.append(c_rt_default(sd, how))
+    for o in _registry_objs(rng, 4 * mult):
+        for how in HOWS:
+            cases.append(c_rt(o, how))
     for _ in range(10 * mult):
         ver = rng.choice((48, 64))
         d = rng.randrange(0, 6) if ver == 48 else rng.randrange(6, len(DIALECTS))     # a dialect of the same family
@@ -335,19 +508,29 @@ def impl(c):
         x = build(o)
         try:
             y = _copy(x, how)
-            t = canon(y)
+            t = rt_canon(y)
             fl = [_b(lambda: str(y) == str(x)), _b(lambda: y == x), _b(lambda: not (y != x)),
-                  '-' if isinstance(x, IPSet) else _b(lambda: hash(y) == hash(x)),
-                  tf(type(y) is type(x)), tf(y is not x), tf(canon(x) == tok(o))]
+                  '-' if isinstance(x, (IPSet, OUI, IAB)) else _b(lambda: hash(y) == hash(x)),
+                  tf(type(y) is type(x)), tf(y is not x), tf(rt_canon(x) == rt_expected(o))]
         except Exception as e:
             return '!' + errname(e)
         return t + ' ' + ' '.join(fl)
+    if a[0] == 'rtd':
+        o, how = a[1], a[2]
+        x = plain_ipset()([IPNetwork((v, p), version=ver) for ver, v, p in o[1]])
+        try:
+            y = _copy(x, how)
+            return canon(y)
+        except Exception:
+            return '!'                      # the unpickled object has no _cidrs: every use raises
     raise ValueError(a)
 
 
 def equivalent(c, got, model):
     if c.args[0] == 'rt':
         return got.split(' ')[0] == model
+    if c.args[0] == 'rtd':
+        return got == model or (got == '!' and model == '!other')
     return got == model
 
 
@@ -434,9 +617,14 @@ def oracle(c, got):
         if all(o[0] in 'AN' for o in l) and flag != 'T':
             return 'sorted() of a permutation of the same addresses/networks gave a different list'
         return None
+    if a[0] == 'rtd':
+        # CPython's default reduce rule (no __reduce__ of its own): a falsy state is dropped under protocols 0, 1
+        o, how = a[1], a[2]
+        exp = '!' if (not o[1] and how in ('p0', 'p1')) else tok(o)
+        return None if got == exp else 'default-reduce IPSet subclass, %s: got %s, the CPython rule gives %s' % (how, got, exp)
     if a[0] == 'rt':
         o, how = a[1], a[2]
-        exp = tok(o) + ' T T T %s T T T' % ('-' if o[0] == 'S' else 'T')
+        exp = rt_expected(o) + ' T T T %s T T T' % ('-' if o[0] in 'SOI' else 'T')
         return None if got == exp else '%s round trip gave %s, expected %s (token, str==, ==, not !=, hash==, same type, new object, built as given)' % (how, got, exp)
     return None
 
@@ -456,6 +644,8 @@ def repro(c):
             return 'IPGlob(%r)' % (o[3],)
         if k == 'S':
             return 'IPSet([%s])' % ', '.join('IPNetwork((%d, %d), version=%d)' % (v, p, ver) for ver, v, p in o[1])
+        if k in 'OI':
+            return '%s(%d)' % ('OUI' if k == 'O' else 'IAB', o[1])
         return 'EUI(%d, version=%d, dialect=%s)' % (o[2], o[1], DIALECTS[o[3]])
     if a[0] == 'cmp':
         return 'x, y = %s, %s; x == y, x != y, x < y, x <= y, x > y, x >= y, hash(x) == hash(y)' % (b(a[1]), b(a[2]))
@@ -463,6 +653,9 @@ def repro(c):
         return 'x, y, z = %s, %s, %s; x <= y, y <= z, x <= z, x == y, y == z, x == z' % (b(a[1]), b(a[2]), b(a[3]))
     if a[0] == 'sorted':
         return 'sorted([%s])' % ', '.join(b(o) for o in a[1])
+    if a[0] == 'rtd':
+        return ('class P(IPSet): __slots__ = (); __reduce__ = object.__reduce__  # at module level; x = P([...%d nets]); '
+                'pickle.loads(pickle.dumps(x, proto)) for how=%s' % (len(a[1][1]), a[2]))
     how = a[2]
     f = {'copy': 'copy.copy(x)', 'deepcopy': 'copy.deepcopy(x)'}.get(how, 'pickle.loads(pickle.dumps(x, %s))' % how[1:])
     return 'x = %s; y = %s; str(y) == str(x), y == x, hash(y) == hash(x), type(y)' % (b(a[1]), f)
